@@ -117,9 +117,9 @@ func (d *Decl) Sexp(e *Env) string {
 		for _, f := range d.Fields {
 			df := "-"
 			if f.Default != nil {
-				// the default as the generated code holds it: the literal read as a document of the
-				// field's type, i.e. with the own defaults of nested records filled in
-				df = e.expectedOwnOnly(f.Ty, f.Default).Sexp()
+				// the schema's literal as it stands; the model reads it as a document of the field's
+				// type (Model/Norm.lean, expandDefaults), like the generated code does
+				df = f.Default.Sexp()
 			}
 			opt := "0"
 			if f.Optional {
